@@ -40,6 +40,7 @@ var exprChoices = []exprChoice{
 	{expr: "up == 0"},
 	{expr: "sum(A) by (x) > 0", metrics: []string{"A"}},
 	{expr: `ALERTS{alertname="D"} == 1`, alerts: []string{"D"}},
+	{expr: `count(ALERTS{alertname="Other"}) unless count(ALERTS{alertname="D"}) or other:metric + A`, metrics: []string{"A", "other:metric"}, alerts: []string{"Other", "D"}},
 	{expr: "A > 0", metrics: []string{"A"}},
 	{expr: `ALERTS_FOR_STATE{alertname="D"} > 0`, alerts: []string{"D"}},
 	{expr: `A + on() ALERTS{alertname="D", alertstate="firing"} > 0`, metrics: []string{"A"}, alerts: []string{"D"}},
@@ -47,7 +48,7 @@ var exprChoices = []exprChoice{
 	{expr: `rate(A[5m]) > 0 or absent(A)`, metrics: []string{"A"}},
 }
 
-var nExprQuick = 3
+var nExprQuick = 4
 
 func render(rules []urule) string {
 	var sb strings.Builder
@@ -299,7 +300,7 @@ var tier string
 func main() {
 	explore.Main(&explore.Config{
 		Property: "C20", Level: "exploration",
-		Rule: "rule universe: recording provider A and alert D in file one, three consumers (two alerts, one recording rule) in files one/two whose expressions range over {no reference, sum(A), ALERTS{alertname=\"D\"}} (thorough adds A, ALERTS_FOR_STATE, both, a regexp alertname matcher, rate+absent), optionally a second provider A or an alert named A (thorough: also a second alert D) in the other file; x every non-empty subset of rules removed on the branch (files vanish when emptied) (thorough: x removal in one or two commits); real git repository, real finders, real rule/dependency check under the ci command; compared with the generator's reference dependency graph: warning iff dependants remain and no same-kind same-name replacement remains, and the listed dependants are exactly the dependants",
+		Rule: "rule universe: recording provider A and alert D in file one, three consumers (two alerts, one recording rule) in files one/two whose expressions range over {no reference, sum(A), ALERTS{alertname=\"D\"}, an expression with several ALERTS and metric selectors where the interesting one is not first} (thorough adds A, ALERTS_FOR_STATE, both, a regexp alertname matcher, rate+absent), optionally a second provider A or an alert named A (thorough: also a second alert D) in the other file; x every non-empty subset of rules removed on the branch (files vanish when emptied) (thorough: x removal in one or two commits); real git repository, real finders, real rule/dependency check under the ci command; compared with the generator's reference dependency graph: warning iff dependants remain and no same-kind same-name replacement remains, and the listed dependants are exactly the dependants",
 		Assumptions: []string{"alertname=~ selectors are a permissive cell: pint counts equality matchers only, the property speaks of selecting 'with its alertname'", "default configuration, offline"},
 		Spaces: []*explore.Space{{Name: "removals", Body: body, Bound: func(string) int { return -1 }, Setup: func(t string) {
 			tier = t
